@@ -247,7 +247,6 @@ def counting_search(F, A, phi, s):
     if len(sw) != 2:
         s.how = "%d branches between the loop head and the increment (expected the bound test and the comparison)" % len(sw)
         return s
-    sw.sort(key=lambda e: 0 if b.dominates(e[0], sw[0][0]) and e[0] != sw[0][0] else 1)
     if not b.dominates(sw[0][0], sw[1][0]):
         sw.reverse()
     (d1, t1, l1), (d2, t2, l2) = sw
@@ -295,7 +294,7 @@ def counting_search(F, A, phi, s):
     ok = False
     for f in fnd:
         for x in subterms(f):
-            if x[0] == "call" and "PartialEq<" in str(x[1]):
+            if x and x[0] == "call" and "PartialEq<" in str(x[1]):
                 xs = ("call", x[1], tuple(nmz.unref(nmz.norm(a_)) for a_ in x[2]))
                 if window_pred(xs, window):
                     ok = True
